@@ -117,8 +117,9 @@ def kani_cmd(pkg, features, harnesses, tier, jobs, out_json, timeout, extra=(), 
         cmd += ['--target-dir', target_dir]
     if features:
         cmd += ['--features', ','.join(features)]
-    if tier == 'quick':
-        cmd += ['--no-assertion-reach-checks']
+    # assertion-reachability checks multiply CBMC's work (measured 25 min instead of 50 s per obligation on the
+    # initialisation harnesses): vacuity is guarded by the cover statements of the designated obligations instead
+    cmd += ['--no-assertion-reach-checks']
     for h in harnesses:
         cmd += ['--harness', h]
     cmd += list(extra)
@@ -141,6 +142,11 @@ def run_verus(obs):
         else:
             results[o['key']] = dict(status='undecided', reason='verus produced no result: ' + p.stdout[-300:], checks=[], stats={}, output=p.stdout[-3000:])
     return results, time.time() - t0, ['verus', 'lemmas/*.rs']
+
+
+# C21 ("every call finishes in bounded steps"): for this property the unwinding assertions ARE the
+# obligation - a loop or recursion that does not exit within the stated bound is the violation.
+UNWIND_IS_VIOLATION = False
 
 
 def run_group(scratch, pkg, features, obs, tier, jobs):
@@ -203,7 +209,8 @@ def run_group(scratch, pkg, features, obs, tier, jobs):
             else:
                 res.update(status='discharged')
         else:
-            real = [c for c in failed if not any(pat in c['description'] for pat in UNDECIDED_PATTERNS)]
+            pats = [p for p in UNDECIDED_PATTERNS if not (UNWIND_IS_VIOLATION and 'unwinding' in p)]
+            real = [c for c in failed if not any(pat in c['description'] for pat in pats)]
             if real:
                 res.update(status='failed', failed=[dict(description=c['description'], function=c.get('function'),
                                                          location=c.get('location'), category=c.get('category')) for c in real])
@@ -370,6 +377,8 @@ BASE_TRUST = [
 
 
 def cmd_check(prop, tier, repo, seed):
+    global UNWIND_IS_VIOLATION
+    UNWIND_IS_VIOLATION = (prop == 'C21')
     t0 = time.time()
     all_obs = OBL.for_property(prop, tier)
     only = [m for m in os.environ.get('VERIF_ONLY_MODULES', '').split(',') if m]
